@@ -233,6 +233,18 @@ Fixpoint changes_loop (p : pair) (st : stats) (chs : list change) : result stats
 Definition update_stats_lit (st : stats) (p : pair) (chs : list change) : result stats :=
   st0 <- st_zero st p ;; changes_loop p st0 chs.
 
+(** the effect of the two loops, stated with the structural scans of C19_Model.v
+    ([scans_lit]): the decrements of [old_scan] in order, each through [get_mut]
+    with its two error exits, then the increments of [new_scan] *)
+Fixpoint dec_all_lit (l : list pair) (idx : nat) (k : N) (st : stats) : result stats :=
+  match l with
+  | [] => Ok st
+  | q :: r => st' <- st_dec st q idx k ;; dec_all_lit r idx k st'
+  end.
+Definition add_all_lit (l : list pair) (idx : nat) (k : N) (st : stats) : stats :=
+  fold_left (fun st q => st_add st q idx k) l st.
+Definition ch_idx (ch : change) : nat := fst (fst (fst ch)).
+
 (** ** iteration order of a hash map: the same map, entries in another order, and
     within every entry the occurrence list in another order *)
 Definition same_entry (e e' : pair * info) : Prop :=
